@@ -47,12 +47,12 @@ def enc_len(n: int, form: int = 0) -> bytes:
             octs.insert(0, n % 256)
             n = n // 256
         return bytes([128 + len(octs)] + octs)
+    while n >= 256 ** form:
+        form += 1  # the requested number of length octets is a minimum
     octs = []
     for _ in range(form):
         octs.insert(0, n % 256)
         n = n // 256
-    if n:
-        raise ValueError("length does not fit the requested form")
     return bytes([128 + form] + octs)
 
 
